@@ -30,14 +30,41 @@ func main() {
 }
 
 // script builds the SMT-LIB script of an obligation.
-func (p *Proof) script(o *Obligation) string {
+func hasQuant(t *Term, memo map[int]bool) bool {
+	if v, ok := memo[t.id]; ok {
+		return v
+	}
+	r := t.Bound != nil
+	if !r {
+		for _, a := range t.Args {
+			if hasQuant(a, memo) {
+				r = true
+				break
+			}
+		}
+	}
+	memo[t.id] = r
+	return r
+}
+
+var quantMemo = map[int]bool{}
+
+func (p *Proof) script(o *Obligation) string { return p.scriptQ(o, false) }
+
+func (p *Proof) scriptQ(o *Obligation, qfOnly bool) string {
 	var asserts []*Term
-	asserts = append(asserts, p.assumptions[:o.NAssume]...)
+	for _, a := range p.assumptions[:o.NAssume] {
+		if qfOnly && hasQuant(a, quantMemo) {
+			continue
+		}
+		asserts = append(asserts, a)
+	}
 	asserts = append(asserts, p.specDefs...)
 	asserts = append(asserts, o.Guard)
 	if !o.IsCover {
 		asserts = append(asserts, Not(o.Goal))
 	}
+	asserts = append(asserts, u2iAxioms(asserts)...)
 	used := usedSymbols(asserts)
 	// literal facts for literals that occur
 	var lits []*Term
@@ -68,6 +95,20 @@ func discharge(results []*ProofResult, timeoutS int, all bool, verbose bool) {
 	// scripts are built sequentially (term bank is not thread-safe)
 	for _, j := range jobs {
 		j.o.Script = j.p.script(j.o)
+		if !j.o.IsCover {
+			j.o.ScriptQF = j.p.scriptQ(j.o, true)
+			if j.o.ScriptQF == j.o.Script {
+				j.o.ScriptQF = ""
+			}
+		}
+		for _, pt := range j.o.Parts {
+			pt.Inputs = j.o.Inputs
+			pt.Script = j.p.script(pt)
+			pt.ScriptQF = j.p.scriptQ(pt, true)
+			if pt.ScriptQF == pt.Script {
+				pt.ScriptQF = ""
+			}
+		}
 	}
 	workers := runtime.NumCPU() / 2
 	if workers < 2 {
@@ -80,7 +121,11 @@ func discharge(results []*ProofResult, timeoutS int, all bool, verbose bool) {
 		go func() {
 			defer wg.Done()
 			for j := range ch {
-				best, rs, dis := solveRace(j.o.Script, timeoutS, all)
+				t1 := timeoutS
+				if len(j.o.Parts) > 0 && t1 > 4 {
+					t1 = 4
+				}
+				best, rs, dis := solveStaged(j.o, t1, all)
 				j.o.Status = best.Status
 				j.o.Solver = best.Solver
 				j.o.Millis = best.Millis
@@ -91,6 +136,38 @@ func discharge(results []*ProofResult, timeoutS int, all bool, verbose bool) {
 					j.o.Model = parseModel(best.Output, j.o.Inputs)
 				}
 				_ = rs
+				if best.Status != "sat" && best.Status != "unsat" && len(j.o.Parts) > 0 {
+					allOK := true
+					var ms int64
+					for _, pt := range j.o.Parts {
+						b2, _, d2 := solveStaged(pt, timeoutS, all)
+						ms += b2.Millis
+						if os.Getenv("GOVC_DEBUG") != "" {
+							fmt.Printf("   part %s: %s %s %dms\n", pt.Name, b2.Status, b2.Solver, b2.Millis)
+							os.WriteFile("/tmp/govc_"+sanitize(pt.Name)+".smt2", []byte(pt.Script), 0644)
+						}
+						if d2 {
+							j.o.Status = "disagree"
+							allOK = false
+							break
+						}
+						if b2.Status != "unsat" {
+							allOK = false
+							j.o.Status = b2.Status
+							j.o.Solver = b2.Solver
+							if b2.Status == "sat" {
+								j.o.Model = parseModel(b2.Output, pt.Inputs)
+								j.o.Script = pt.Script
+							}
+							break
+						}
+						j.o.Solver = b2.Solver + "(split)"
+					}
+					j.o.Millis += ms
+					if allOK {
+						j.o.Status = "unsat"
+					}
+				}
 			}
 		}()
 	}
@@ -99,6 +176,23 @@ func discharge(results []*ProofResult, timeoutS int, all bool, verbose bool) {
 	}
 	close(ch)
 	wg.Wait()
+}
+
+// solveStaged first tries the goal with quantifier-free assumptions only (a subset of the assumptions, so
+// unsat is conclusive), then with everything.
+func solveStaged(o *Obligation, timeoutS int, all bool) (solveResult, []solveResult, bool) {
+	if o.ScriptQF != "" {
+		t := timeoutS
+		if t > 5 {
+			t = 5
+		}
+		b, rs, dis := solveRace(o.ScriptQF, t, all)
+		if b.Status == "unsat" || dis {
+			b.Solver += "(qf)"
+			return b, rs, dis
+		}
+	}
+	return solveRace(o.Script, timeoutS, all)
 }
 
 func cmdProve(args []string) {
@@ -214,8 +308,6 @@ func cmdProve(args []string) {
 	fmt.Printf("obligations ok=%d failed=%d  total %.1fs\n", nOK, nBad, time.Since(t0).Seconds())
 }
 
-func cmdCheck(args []string)  {}
-func cmdReplay(args []string) {}
 
 // parseModel extracts (term value) pairs from a get-value answer.
 func parseModel(out string, inputs []*Term) map[string]string {
